@@ -201,6 +201,7 @@ def restore_globals():
 
 
 DEFAULT_MAXSIZE = 8192
+
 DEFAULT_MAXSECTORS = 512
 
 
@@ -215,18 +216,44 @@ def set_cache_limits(maxsize, maxsectors):
     AC._fuseinfo_cache_maxsectors = maxsectors
 
 
+class _CacheView:
+    """Tolerant access to the library's fuse-cache globals: if a changed tree
+    renames or removes them the simulator loses that seam (and says so in its
+    counters) instead of crashing."""
+
+    @property
+    def _fuseinfos(self):
+        d = getattr(AC, "_fuseinfos", None)
+        if d is None:
+            d = self.__dict__.setdefault("_dummy", _collections.OrderedDict())
+        return d
+
+    def __getattr__(self, k):
+        if k in ("_fi_hit", "_fi_missed", "_fi_missed_too_long"):
+            return getattr(AC, k, 0)
+        if k in ("_fuseinfo_cache_maxsize", "_fuseinfo_cache_maxsectors"):
+            return getattr(AC, k, 0)
+        return getattr(AC, k)
+
+    def __setattr__(self, k, v):
+        setattr(AC, k, v)
+
+
+CACHE = _CacheView()
+
+
 def cache_counters():
-    return (AC._fi_hit, AC._fi_missed, AC._fi_missed_too_long)
+    return (CACHE._fi_hit, CACHE._fi_missed, CACHE._fi_missed_too_long)
 
 
 def world_reset(maxsize=DEFAULT_MAXSIZE, maxsectors=DEFAULT_MAXSECTORS):
     """Put every piece of process-wide library state into a known state."""
     restore_globals()
-    AC._fuseinfos.clear()
+    CACHE._fuseinfos.clear()
     clear_lru()
-    AC._fi_hit = 0
-    AC._fi_missed = 0
-    AC._fi_missed_too_long = 0
+    for _k in ("_fi_hit", "_fi_missed", "_fi_missed_too_long"):
+        if hasattr(AC, _k):
+            setattr(AC, _k, 0)
     AC._DEFAULT_TENSORDOT_MODE = "auto"
     set_cache_limits(maxsize, maxsectors)
     # the library's own audit must neither mask nor pre-empt our oracles
